@@ -1,10 +1,17 @@
 // Engine h_sync: C21 (CompletionEvent / Latch), C22 (RWLock), C23 (DistributedRWLock),
 // C24 (AsyncRequest), C25 (ResourcePool), C26 (TimedTask), C45 (threadId).
 // Each property lives in its own translation unit h_sync_c<NN>.cpp.
+#include <sys/syscall.h>
+
 #include "h_sync_common.h"
 
 int main(int argc, char** argv) {
   vrt::init(argc, argv);
+  // Resolve the runtime's futex interposer once, single-threaded: its lazily initialised pointer to
+  // the real syscall() is guarded by a function-local static, and libstdc++ waits on a contended
+  // guard through syscall(SYS_futex) - which is the interposer again. Several threads making the
+  // process's first futex call together can recurse there until the stack is exhausted.
+  (void)syscall(SYS_getpid);
   const std::string& p = vrt::g_args.prop;
   if (p == "C21") runC21();
   else if (p == "C22") runC22();
